@@ -130,7 +130,8 @@ def _c09():
             hs.append(H(f"c09_dec_op{op}_n{n}", tier="quick" if n in quick_len[op] else "thorough", profiles=("rel",), unwindset=vec_loops(2),
                         mem_gb=(20 if op >= 5 and n >= 10 else None), timeout=(3000 if op >= 5 and n >= 10 else None),
                         note=f"all byte strings of length {n} with first octet 0x7{op} / 0x0{op}: Ok iff valid per PROTOCOL.md, fields pinned by re-encoding, owned == borrowed, no panic"))
-        hs.append(H(f"c09_dec_badfirst_n{n}", tier="quick" if n == 5 else "thorough", profiles=("rel",), unwindset=vec_loops(2),
+        # n = 9 and 12 are quick since seed C09d (an undefined opcode nibble decoded as a Datagram needs a Datagram-sized body to show)
+        hs.append(H(f"c09_dec_badfirst_n{n}", tier="quick" if n in (5, 9, 12) else "thorough", profiles=("rel",), unwindset=vec_loops(2),
                     note=f"all byte strings of length {n} with any other first octet (242 values): rejected, no panic"))
     for n in ["p0_e2", "p2_e2", "p2_e0"]:
         hs.append(H(f"c09_append_{n}", tier="quick" if n != "p2_e0" else "thorough", profiles=("dev", "rel"), note="append_push_data == encoding of the concatenation"))
